@@ -62,6 +62,17 @@ CHECKS = {
              "Reflexivity and exception-freedom are checked on every base block.",
         note="Trusted: E1 semantics, z3. The external forves adapter is not exercised (no forves binary in the sandbox): "
              "that clause of the property is outside the claim. Pairs outside the mutation families are not covered."),
+    "C06": dict(
+        level="model_checking", design="5/C06", engine="z3 on the real .smt2 text + E3 Realize-SMT",
+        technique="SMT model-set inclusion: hard constraints of the real encoding, linked through theta_to_instr to an independent "
+                  "functional stack-machine encoding, conjoined with the negation of 'realizes' must be UNSAT",
+        text="For every specification with init_progr_len <= 5 from the small-vocabulary families and 24 (quick) / 256 "
+             "(thorough) encoder option sets, the SMT-LIB text of the real BlockOptimizer is parsed strictly by z3 "
+             "(well-formedness) and one inclusion query decides that *every* model of its hard constraints decodes to a "
+             "realizing sequence; a model is decoded by the tool's own reader and replayed on the reference stack machine "
+             "before being reported; the hard constraints are also checked satisfiable (non-vacuity).",
+        note="Trusted: vlib.synth, z3's SMT-LIB parser. The Max-SMT solver is never run. Three recorded findings concern "
+             "-push-basic and specifications with max_sk_sz = 0."),
     "C08": dict(
         level="translation_validation", design="5/C08", engine="pysym on the decision logic + independent cost model on pipeline outputs",
         technique="symbolic execution of the accept/reject and selection functions (AST -> z3) with symbolic cost vectors; "
